@@ -150,9 +150,20 @@ func (gr GithubReporter) List(ctx context.Context, _ any) ([]ExistingComment, er
 	defer cancel()
 
 	slog.Debug("Getting the list of pull request comments", slog.Int("pr", gr.prNum))
-	existing, _, err := gr.client.PullRequests.ListComments(reqCtx, gr.owner, gr.repo, gr.prNum, nil)
-	if err != nil {
-		return nil, fmt.Errorf("failed to list pull request reviews: %w", err)
+	// GitHub returns 30 comments per page by default, make sure we see all of them
+	// or we would create the ones from other pages again.
+	var existing []*github.PullRequestComment
+	opt := &github.PullRequestListCommentsOptions{ListOptions: github.ListOptions{PerPage: 100}} // nolint: exhaustruct
+	for {
+		page, resp, err := gr.client.PullRequests.ListComments(reqCtx, gr.owner, gr.repo, gr.prNum, opt)
+		if err != nil {
+			return nil, fmt.Errorf("failed to list pull request reviews: %w", err)
+		}
+		existing = append(existing, page...)
+		if resp == nil || resp.NextPage == 0 {
+			break
+		}
+		opt.Page = resp.NextPage
 	}
 
 	comments := make([]ExistingComment, 0, len(existing))
